@@ -9,7 +9,12 @@ class C07(Prop):
     level = "proof"
     rule = ("random (size, thr in 0..12, outcome list <= 60, random batch partition for v2) from one splitmix64 "
             "state; thorough adds every outcome vector up to length 9 for size,thr in 0..4. distinct = distinct "
-            "input JSON; non-trivial = at least one ack and one nack outcome and a window that is enabled")
+            "input JSON; non-trivial = at least one ack and one nack outcome and a window that is enabled. "
+            "large family (engines l1/l2, --mode large): window sizes around 2^8..2^18 (thorough: ..2^20), thresholds "
+            "small / near size / >= 2^16 / 0 / >= size, run-length-encoded histories of 10^3..10^6 outcomes built as "
+            "boundary probes (the oldest tolerated rejection is d in -1..2 outcomes from leaving the window), floods "
+            "and random runs; the real code is driven through every single outcome (v1) / batch (v2, batches up to "
+            "2^20), Coq evaluates the run-length-encoded timestamp-queue form of the rule")
     trusted_base = [
         "Coq 8.16.1 kernel + vm_compute (no native_compute)",
         "Go harness harness/cmd/c07 (fake DLQ handler / destination, case writer)",
@@ -25,8 +30,10 @@ class C07(Prop):
 
     def shards(self, tier, seed):
         if tier == "quick":
-            return [["--seed", str(seed), "--n", "250"] for _ in range(8)]
-        rnd = [["--seed", str(seed), "--n", "2000"] for _ in range(NCPU)]
+            return ([["--seed", str(seed), "--n", "250"] for _ in range(8)]
+                    + [["--seed", str(seed), "--mode", "large", "--n", "8"] for _ in range(8)])
+        rnd = ([["--seed", str(seed), "--n", "2000"] for _ in range(NCPU)]
+               + [["--seed", str(seed), "--mode", "large", "--n", "40"] for _ in range(NCPU)])
         exh = [["--seed", str(seed), "--mode", "exhaustive/%d/%d" % (2 * NCPU, k)] for k in range(2 * NCPU)]
         return rnd + exh
 
@@ -38,6 +45,9 @@ class C07(Prop):
         if i.get("engine") in ("r1", "r2"):
             recs = i.get("recs") or [r for b in (i.get("batches") or []) for r in b]
             return any(r[0] for r in recs) and not all(r[0] for r in recs)
+        if i.get("engine") in ("l1", "l2"):
+            rs = i.get("runs") or i.get("chunks") or []
+            return i["size"] > 0 and any(r[0] == 1 and r[1] > 0 for r in rs) and any(r[0] == 0 and r[1] > 0 for r in rs)
         if i.get("engine") == "v1":
             ops = i.get("ops") or []
             return i["size"] > 0 and any(ops) and not all(ops)
@@ -46,14 +56,16 @@ class C07(Prop):
 
     def finding_key(self, case, code):
         i = case["input"]
-        return "%s/%s" % ("routing" if i.get("engine") in ("r1", "r2") else "window", i.get("engine"))
+        e = i.get("engine")
+        return "%s/%s" % ("routing" if e in ("r1", "r2") else "window-large" if e in ("l1", "l2") else "window", e)
 
     def describe(self, case, code):
         return "DLQ window/routing behaviour of engine %s differs from the property's rule for %s" % (
             case["input"].get("engine"), case["input"])
 
     def distribution(self, cases):
-        d = {"v1": 0, "v2": 0, "r1": 0, "r2": 0, "size0": 0, "thr0": 0, "refusals": 0,
+        d = {"v1": 0, "v2": 0, "r1": 0, "r2": 0, "l1": 0, "l2": 0, "large_size_above_65536": 0,
+             "large_thr_at_least_65536": 0, "large_outcomes_driven": 0, "size0": 0, "thr0": 0, "refusals": 0,
              "routing_stopped": 0, "routing_dlq_write_failures": 0}
         for c in cases:
             i = c["input"]
@@ -61,7 +73,12 @@ class C07(Prop):
             d["size0"] += i["size"] == 0
             d["thr0"] += i["thr"] == 0
             o = c["observed"]
-            if "decisions" in o:
+            if "decisions_rle" in o:
+                d["refusals"] += any(r[0] == 0 and r[1] > 0 for r in o["decisions_rle"] or [])
+                d["large_size_above_65536"] += i["size"] > 65536
+                d["large_thr_at_least_65536"] += i["thr"] >= 65536
+                d["large_outcomes_driven"] += o.get("outcomes", 0)
+            elif "decisions" in o:
                 d["refusals"] += not all(o["decisions"] or [True])
             else:
                 d["routing_stopped"] += bool(o.get("stopped"))
